@@ -265,7 +265,7 @@ def payRcpts (t : Tenant) (r : Rec) (fault : Option Nat) (n W : Nat) : List Reci
     if t.mint then
       if fault == some calls then .failed (calls + 1)
       else if amt < 0 then .panicked
-      else payRcpts t r fault n W rest (b.credit who (mintDenom t) amt.toNat) (calls + 1) (ev ++ [.paid t.id r.id who (mintDenom t) amt.toNat])
+      else payRcpts t r fault n W rest (b.credit who (mintDenom t) amt.toNat) (calls + 1) (ev ++ [.minted t.id r.id who (mintDenom t) amt.toNat])
     else if r.denom == "uerc".toList then
       -- registered ERC-20 denomination: conversion backend
       if fault == some calls then .failed (calls + 1)
